@@ -811,6 +811,29 @@ def try_branches_on(fn, poll_call):
     return out
 
 
+def spawned_coroutines(db, f):
+    """coroutine bodies whose future `f` hands to a task-spawning call: an `async move {..}` block written in place, or the
+    body of a crate-local `async fn` called for the purpose (`spawn(forward(a, b))`): [(spawn Call, coroutine Fn)]"""
+    from .futflow import ROOT_RX
+    out = []
+    for c in f.calls():
+        if not any(n and (ROOT_RX.match(n) or re.match(r"^ractor::concurrency::\w+::spawn(_named|_local)?$", n)) for n in (c.callee, c.resolved)):
+            continue
+        for a in c.args:
+            for r in f.origins(a):
+                if r["k"] == "agg" and r["stmt"]["rv"].get("kind") == "coroutine":
+                    g = db.fns.get(r["stmt"]["rv"].get("def"))
+                    if g is not None:
+                        out.append((c, g))
+                elif r["k"] == "call":
+                    h = db.fns.get(r["call"].resolved or "") or db.fns.get(r["call"].callee or "")
+                    if h is not None and h.raw.get("is_async"):
+                        g = db.coroutine_of(h.id)
+                        if g is not None:
+                            out.append((c, g))
+    return out
+
+
 def closure_use_sites(db, f, g):
     """call sites in `f` that are handed the closure `g` (created in f): where g's body runs if it is run in place"""
     out = []
@@ -1046,6 +1069,26 @@ def _flag_defs(fn, local):
             neg = not neg
             local = op_place(ds[0][2]["rv"]["a"])[0]
             ds = whole(local)
+        elif len(ds) == 1 and ds[0][1] == "assign" and ds[0][2]["rv"]["k"] == "use" and op_place(ds[0][2]["rv"]["op"]) is not None and op_place(ds[0][2]["rv"]["op"])[1] and not ds[0][2]["lhs"][1]:
+            # a field of a value built in this body: `(Poll::Ready(x) as Ready).0`, `(a, b).1`  ->  the operand stored there
+            bl, proj = op_place(ds[0][2]["rv"]["op"])
+            fld = [e for e in proj if e.startswith("f:")]
+            if len(fld) != 1 or any(e == "*" for e in proj):
+                break
+            bds = whole(bl)
+            if len(bds) != 1 or bds[0][1] != "assign" or bds[0][2]["rv"]["k"] != "agg":
+                break
+            idx = int(fld[0].split(":")[1])
+            ops = bds[0][2]["rv"].get("ops", [])
+            if idx >= len(ops):
+                break
+            ip = op_place(ops[idx])
+            if ip is None or ip[1]:
+                break
+            nds = whole(ip[0])
+            if not nds:
+                break
+            local, ds = ip[0], nds
         else:
             break
     return local, neg, ds
